@@ -289,9 +289,15 @@ func writeGroupIni(cmd *Command, group *Group, namespace string, writer io.Write
 				kind = val.Type().Elem().Kind()
 			}
 
-			v, _ := convertToString(val, option.tag)
+			if val.Kind() == reflect.Ptr && val.IsNil() {
+				// An unset pointer has no value to write; like an empty
+				// slice it is only mentioned in a comment
+				writeOption(writer, oname, kind, "", "", true, option.iniQuote)
+			} else {
+				v, _ := convertToString(val, option.tag)
 
-			writeOption(writer, oname, kind, "", v, commentOption, option.iniQuote)
+				writeOption(writer, oname, kind, "", v, commentOption, option.iniQuote)
+			}
 		}
 
 		if comments {
